@@ -426,12 +426,16 @@ fn validate(ctx: &Context<impl Channel>) -> Result<(), Error> {
         circ,
         inputs,
         p_out,
+        p_eval,
         ..
     } = ctx;
     circ.validate()?;
     let Some(expected_inputs) = circ.input_regs.get(p_own) else {
         return Err(Error::PartyDoesNotExist);
     };
+    if p_eval >= p_max {
+        return Err(Error::PartyDoesNotExist);
+    }
     if *expected_inputs != inputs.len() {
         return Err(Error::WrongInputSize {
             expected: *expected_inputs,
